@@ -1,5 +1,5 @@
 (* C04: the statements.  This file contains nothing but the property theorems. *)
-From Maddy Require Import Lib.Base Pipeline.Route Pipeline.Spec Pipeline.Lemmas Pipeline.SpecSel.
+From Maddy Require Import Lib.Base Pipeline.Route Pipeline.Spec Pipeline.Lemmas Pipeline.SpecSel Pipeline.Whole.
 Local Open Scope N_scope.
 
 (* First declaration wins, for every configuration: the destination table of a parsed source
@@ -68,6 +68,23 @@ Theorem C04_selection_is_documented_precedence_source :
     end.
 Proof. exact select_src_eq_spec. Qed.
 Print Assumptions C04_selection_is_documented_precedence_source.
+
+(* Model = documented rules, for whole messages: for every configuration the parser accepts (any
+   nesting depth of reroute, any tables, any 1-to-N rewrites at the three levels, any fuel) and every
+   envelope, what Route.message computes on the parsed tables - the reply to MAIL FROM and, per RCPT
+   TO, the (target, sender, recipient) events in order and the reply - is what Spec.spec_message, the
+   documented precedence read directly off the directive tree, says.  The monitor's reference
+   (Spec) and the model the implementation is compared with (Route) are therefore one function.
+   [wf_deepb]: a directive without a block has no children at any depth - evaluated on every
+   generated case (tag bit 128). *)
+Theorem C04_route_eq_spec :
+  forall flk dflk valid_rule split_dom tbl rw_s rw_r wfuel rf fp nodes p from tos,
+    wf_deepb wfuel nodes = true ->
+    parse_root flk dflk valid_rule fp nodes = Ok p ->
+    message flk split_dom tbl rw_s rw_r rf p from tos =
+    spec_message flk dflk valid_rule split_dom tbl rw_s rw_r rf nodes from tos.
+Proof. intros. eapply message_eq_spec; [eapply wf_deepb_sound|]; eassumption. Qed.
+Print Assumptions C04_route_eq_spec.
 
 (* Matching sees addresses and rules only through their lookup keys: two spellings with the
    same key select the same block, and two rule lists with the same normal forms declare the
